@@ -181,8 +181,7 @@ def discharge(obligations: list, timeout_ms: int = 10000, jobs: int = 0, use_cvc
         else:
             smt2 = to_smt2(ob.pc, ob.goal)
         # reachability covers only need one satisfiable instance per name: keep their budget small
-        jobs_list.append((i, smt2, timeout_ms if ob.kind != 'cover' else min(timeout_ms, 5000),
-                          use_cvc5 and ob.kind != 'cover'))
+        jobs_list.append((i, smt2, timeout_ms if ob.kind != 'cover' else min(timeout_ms, 5000), use_cvc5))
     results: list[Optional[Result]] = [None] * len(obligations)
     njobs = jobs or min(16, os.cpu_count() or 4)
     if len(jobs_list) <= 1 or njobs == 1:
